@@ -64,7 +64,7 @@ PROPS["C11"] = {
         {"name": "receive_mutate", "pkg": "region", "entry": "VerifReceiveMutate", "stubs": RECV_STUBS, "reach": ["answered", "left-registered"],
          "params": {"quick": {"N": 26, "MAXCELLS": 1}, "thorough": {"N": 52, "MAXCELLS": 2}}},
         {"name": "receive_scan", "pkg": "region", "entry": "VerifReceiveScan", "stubs": RECV_STUBS, "reach": ["answered", "left-registered"],
-         "params": {"quick": {"N": 26, "MAXCELLS": 1}, "thorough": {"N": 52, "MAXCELLS": 2}}},
+         "params": {"quick": {"N": 26, "MAXCELLS": 1}, "thorough": {"N": 30, "MAXCELLS": 1}}},
         {"name": "decompress_arbitrary", "timeout_s": {"quick": 600, "thorough": 2400}, "pkg": "region", "entry": "VerifDecompressArbitrary", "reach": ["accepted"],
          "params": {"quick": {"ENC": 2, "N": 14}, "thorough": {"ENC": 2, "N": 18}}},
         {"name": "odd_scan_responses", "steps": 60000, "pkg": "root", "entry": "VerifOddScanResponses", "reach": ["ended"],
@@ -234,7 +234,7 @@ PROPS["C12"] = {
         {"name": "sendbatch_discipline", "pkg": "root", "entry": "VerifSendBatch", "stubs": BATCH_STUBS, "reach": ["returned"],
          "params": {"quick": {"PROP": 12, "N": 3, "TRIES": 2, "LOOKUPFAIL": 0, "CANCEL": 0}, "thorough": {"PROP": 12, "N": 3, "TRIES": 3, "LOOKUPFAIL": 0, "CANCEL": 0}}},
         {"name": "multi_response_accepted", "pkg": "region", "entry": "VerifMultiCorrelation", "stubs": RECV_STUBS, "reach": ["correlated"], "native_retries": 10,
-         "params": {"quick": {"CALLS": 2, "CELLS": 1, "protoMax": 1, "protoFixed": 1}, "thorough": {"CALLS": 3, "CELLS": 1, "protoMax": 1, "protoFixed": 1}}},
+         "params": {"quick": {"CALLS": 2, "CELLS": 1, "protoMax": 1, "protoFixed": 1}, "thorough": {"CALLS": 2, "CELLS": 2, "protoMax": 1, "protoFixed": 1}}},
         {"name": "sendbatch_invalid", "pkg": "root", "entry": "VerifSendBatchInvalid", "stubs": BATCH_STUBS, "reach": ["rejected"],
          "params": {"quick": {"PROP": 12, "N": 2, "TRIES": 2, "LOOKUPFAIL": 0, "CANCEL": 0}, "thorough": {"PROP": 12, "N": 3, "TRIES": 2, "LOOKUPFAIL": 0, "CANCEL": 0}}},
     ],
@@ -358,7 +358,7 @@ PROPS["C02"] = {
         {"name": "callid_correlation", "pkg": "region", "entry": "VerifCallIDCorrelation", "stubs": RECV_STUBS, "reach": ["correlated"],
          "params": {"quick": {"CALLS": 2, "CELLS": 1, "protoMax": 1, "protoFixed": 1}, "thorough": {"CALLS": 3, "CELLS": 2, "protoMax": 1, "protoFixed": 1}}},
         {"name": "multi_correlation", "pkg": "region", "entry": "VerifMultiCorrelation", "stubs": RECV_STUBS, "reach": ["correlated"], "native_retries": 10,
-         "params": {"quick": {"CALLS": 2, "CELLS": 1, "protoMax": 1, "protoFixed": 1}, "thorough": {"CALLS": 3, "CELLS": 2, "protoMax": 1, "protoFixed": 1}}},
+         "params": {"quick": {"CALLS": 2, "CELLS": 1, "protoMax": 1, "protoFixed": 1}, "thorough": {"CALLS": 2, "CELLS": 2, "protoMax": 1, "protoFixed": 1}}},
         {"name": "compressed_cells", "pkg": "region", "entry": "VerifCompressedCells", "stubs": RECV_STUBS, "reach": ["held"], "native_retries": 5,
          "params": {"quick": {"protoMax": 1, "protoFixed": 1}, "thorough": {"protoMax": 1, "protoFixed": 1}}},
         {"name": "multi_reuse", "pkg": "region", "entry": "VerifMultiReuse", "stubs": RECV_STUBS, "reach": ["reused"], "native_retries": 6,
@@ -479,7 +479,7 @@ PROPS["C09"] = {
         {"name": "establish", "steps": 40000, "timeout_s": {"quick": 300, "thorough": 1500}, "pkg": "root", "entry": "VerifEstablish", "stubs": EST_STUBS, "reach": ["re-established", "replaced-or-gone"],
          "params": {"quick": {"FAULTS": 2}, "thorough": {"FAULTS": 3}}},
         {"name": "replacement_race", "steps": 40000, "pkg": "root", "entry": "VerifReplacementRace", "stubs": EST_STUBS, "reach": ["replaced-under-load"],
-         "preempts": {"quick": 2, "thorough": 3}, "params": {"quick": {"FAULTS": 0, "RACE": 1}, "thorough": {"FAULTS": 1, "RACE": 1}}},
+         "preempts": {"quick": 2, "thorough": 3}, "params": {"quick": {"FAULTS": 0, "RACE": 1}, "thorough": {"FAULTS": 0, "RACE": 1}}},
         {"name": "evicted_while_establishing", "steps": 40000, "pkg": "root", "entry": "VerifEvictedWhileEstablishing", "stubs": EST_STUBS, "reach": ["evicted"],
          "preempts": {"quick": 1, "thorough": 2}, "params": {"quick": {"FAULTS": 0, "RACE": 1}, "thorough": {"FAULTS": 1, "RACE": 1}}},
         {"name": "two_callers", "steps": 40000, "timeout_s": {"quick": 300, "thorough": 3000}, "pkg": "root", "entry": "VerifTwoCallers", "stubs": EST_STUBS, "reach": ["both-returned"],
@@ -489,7 +489,7 @@ PROPS["C09"] = {
         {"name": "concurrent_failure_reports", "pkg": "root", "entry": "VerifConcurrentFailureReports", "stubs": EST_STUBS, "reach": ["reported"],
          "preempts": {"quick": 2, "thorough": 3}, "params": {"quick": {"FAULTS": 0, "RACE": 1}, "thorough": {"FAULTS": 0, "RACE": 1}}},
         {"name": "two_callers_same_region", "steps": 40000, "timeout_s": {"thorough": 3000}, "pkg": "root", "entry": "VerifTwoCallers", "stubs": EST_STUBS, "reach": ["both-returned"],
-         "preempts": {"thorough": 1}, "params": {"thorough": {"FAULTS": 2, "BUSY": 0, "SAME": 1}}},
+         "preempts": {"thorough": 1}, "params": {"thorough": {"FAULTS": 1, "BUSY": 0, "SAME": 1}}},
     ],
 }
 
@@ -512,8 +512,8 @@ PROPS["C04"] = {
         {"name": "public_api", "pkg": "root", "entry": "VerifPublicAPI", "reach": ["api"], "params": {"quick": {}, "thorough": {}}},
         {"name": "establish_faults", "steps": 40000, "timeout_s": {"quick": 300, "thorough": 1500}, "pkg": "root", "entry": "VerifEstablish", "stubs": EST_STUBS, "reach": ["re-established", "replaced-or-gone"],
          "params": {"quick": {"FAULTS": 2}, "thorough": {"FAULTS": 4}}},
-        {"name": "sendrpc_faults", "steps": 40000, "timeout_s": {"quick": 300, "thorough": 1500}, "pkg": "root", "entry": "VerifSendRPCFaults", "stubs": EST_STUBS, "reach": ["succeeded", "table-gone"],
-         "preempts": {"quick": 1, "thorough": 2}, "params": {"quick": {"FAULTS": 2}, "thorough": {"FAULTS": 3}}},
+        {"name": "sendrpc_faults", "steps": 40000, "timeout_s": {"quick": 300, "thorough": 3000}, "pkg": "root", "entry": "VerifSendRPCFaults", "stubs": EST_STUBS, "reach": ["succeeded", "table-gone"],
+         "preempts": {"quick": 1, "thorough": 1}, "params": {"quick": {"FAULTS": 2}, "thorough": {"FAULTS": 3}}},
         {"name": "two_callers_busy", "steps": 40000, "timeout_s": {"quick": 300, "thorough": 1500}, "pkg": "root", "entry": "VerifTwoCallers", "stubs": EST_STUBS, "reach": ["both-returned"],
          "preempts": {"quick": 1, "thorough": 2}, "params": {"quick": {"RACE": 1, "FAULTS": 1, "BUSY": 1, "SAME": 0, "RACE": 1}, "thorough": {"RACE": 1, "FAULTS": 1, "BUSY": 1, "SAME": 0, "RACE": 1}}},
         {"name": "classify_exception", "pkg": "region", "entry": "VerifClassify", "reach": ["retry-later", "region", "server", "other"],
